@@ -533,6 +533,24 @@ func (r *chanRig) exceptions() []error {
 	return append([]error(nil), r.excs...)
 }
 
+// quiesce waits until the read loop is parked waiting for data, or the channel
+// was closed and the read loop has ended.
+func (r *chanRig) quiesce(timeout time.Duration) bool {
+	if !r.tr.WaitReadParked(timeout) {
+		return false
+	}
+	if r.tr.IsClosed() {
+		done := make(chan struct{})
+		go func() { r.ex.WG.Wait(); close(done) }()
+		select {
+		case <-done:
+		case <-time.After(timeout):
+			return false
+		}
+	}
+	return true
+}
+
 func (r *chanRig) shutdown() {
 	r.ch.Close(nil)
 	r.ex.WG.Wait()
@@ -567,7 +585,7 @@ func runC04Channel(c C04Case, cd wire.Codec, stream []byte, ends []int, want [][
 		rig.tr.Feed(stream[pos : pos+sz])
 		pos += sz
 	}
-	if !rig.tr.WaitReadParked(10 * time.Second) {
+	if !rig.quiesce(10 * time.Second) {
 		out.Inconclusive = "channel layer: read loop did not become idle within 10 s"
 		return
 	}
